@@ -128,6 +128,8 @@ class BinningBase:
         result: Dict[str, Any] = {
             "adaptive": self._adaptive,
             "binning_type": type(self).__name__,
+            # (Not the same for all objects of a class: selections, right-closed fixed-width bins)
+            "includes_right_edge": self._includes_right_edge,
         }
         self._update_dict(result)
         return result
